@@ -17,6 +17,7 @@ func init() {
 				clCursorMovesFiltered(c)
 				clRefreshOnlyOnVisible(c)
 				clVisitorPivotCopies(c)
+				clSkiplistNextAdvancesOnce(c)
 			})
 		},
 	})
